@@ -412,9 +412,9 @@ def build_container_length_field(sizer_item_type, container_name, bound_shift):
         def _decode(data, pos, endianness):
             value, size = sizer_item_type._decode(data, pos, endianness)
             array_guard = 65536
+            value -= bound_shift
             if value > array_guard:
                 raise ProphyError("decoded array length over %s" % array_guard)
-            value -= bound_shift
             if value < 0:
                 raise ProphyError("decoded array length smaller than shift")
             return value, size
